@@ -1,5 +1,288 @@
 package main
 
-import "verif/harness/world"
+import (
+	"bytes"
+	"strings"
 
-func execAttack(w *world.World, s Step) bool { return false }
+	"encoding/binary"
+	otr3 "github.com/coyim/otr3"
+	"math/big"
+	"math/rand"
+
+	"verif/harness/ref"
+	"verif/harness/world"
+)
+
+// A variant is one tampered form of a wire message.
+type variant struct {
+	name string
+	raw  []byte // armoured message
+}
+
+type frange struct {
+	name   string
+	lo, hi int
+}
+
+// fieldRanges returns the byte ranges of the fields of a decoded binary message.
+func fieldRanges(raw []byte) []frange {
+	h, err := ref.ParseHeader(raw)
+	if err != nil || h == nil || h.HdrLen == 0 {
+		return nil
+	}
+	out := []frange{{"version", 0, 2}, {"type", 2, 3}}
+	if h.Version == 3 {
+		out = append(out, frange{"st", 3, 7}, frange{"rt", 7, 11})
+	}
+	pos := h.HdrLen
+	data := func(name string) bool {
+		if len(raw)-pos < 4 {
+			return false
+		}
+		n := int(binary.BigEndian.Uint32(raw[pos:]))
+		if n < 0 || len(raw)-pos-4 < n {
+			return false
+		}
+		out = append(out, frange{name + "len", pos, pos + 4})
+		if n > 0 {
+			out = append(out, frange{name, pos + 4, pos + 4 + n})
+		}
+		pos += 4 + n
+		return true
+	}
+	fixed := func(name string, n int) bool {
+		if len(raw)-pos < n {
+			return false
+		}
+		out = append(out, frange{name, pos, pos + n})
+		pos += n
+		return true
+	}
+	switch h.Type {
+	case ref.TypeDHCommit:
+		_ = data("enc") && data("hash")
+	case ref.TypeDHKey:
+		data("gy")
+	case ref.TypeRevealSig:
+		_ = data("r") && data("encsig") && fixed("mac", 20)
+	case ref.TypeSig:
+		_ = data("encsig") && fixed("mac", 20)
+	case ref.TypeData:
+		_ = fixed("flag", 1) && fixed("skid", 4) && fixed("rkid", 4) && data("next") && fixed("ctr", 8) && data("enc") && fixed("mac", 20) && data("oldmacs")
+	}
+	return out
+}
+
+func cloneBytes(b []byte) []byte { return append([]byte{}, b...) }
+
+// variants enumerates tampered forms of an armoured binary message that must
+// not be accepted as the genuine one. all=false samples positions per field.
+func variants(full []byte, rng *rand.Rand, all bool, perField int) []variant {
+	var out []variant
+	raw, err := ref.Dearmor(full)
+	if err != nil {
+		return nil
+	}
+	add := func(name string, b []byte) { out = append(out, variant{name, ref.Armor(b)}) }
+	for _, fr := range fieldRanges(raw) {
+		if fr.name == "oldmacs" || fr.name == "oldmacslen" {
+			continue // not authenticated: changing it must not cause rejection
+		}
+		positions := []int{}
+		if all || fr.hi-fr.lo <= perField {
+			for i := fr.lo; i < fr.hi; i++ {
+				positions = append(positions, i)
+			}
+		} else {
+			positions = append(positions, fr.lo, fr.hi-1)
+			for len(positions) < perField {
+				positions = append(positions, fr.lo+rng.Intn(fr.hi-fr.lo))
+			}
+		}
+		for _, p := range positions {
+			b := cloneBytes(raw)
+			b[p] ^= 1 << uint(rng.Intn(8))
+			add(fr.name+"/bit", b)
+			if all {
+				b2 := cloneBytes(raw)
+				b2[p] ^= 0xff
+				add(fr.name+"/byte", b2)
+			}
+		}
+	}
+	// truncations and extensions
+	cuts := []int{}
+	if all {
+		for i := 0; i < len(raw); i++ {
+			cuts = append(cuts, i)
+		}
+	} else {
+		cuts = append(cuts, 0, 1, 2, 3, len(raw)-1, len(raw)-5, len(raw)-20, len(raw)-24, len(raw)/2)
+		for i := 0; i < 6; i++ {
+			cuts = append(cuts, rng.Intn(len(raw)))
+		}
+	}
+	for _, c := range cuts {
+		if c >= 0 && c < len(raw) {
+			add("trunc", cloneBytes(raw[:c]))
+		}
+	}
+	h, _ := ref.ParseHeader(raw)
+	if h != nil && h.HdrLen > 0 {
+		// semantic substitutions
+		if h.Version == 3 {
+			for _, t := range []uint32{0, 1, 0xff, 0x100, 0x12345678, 0xffffffff} {
+				b := cloneBytes(raw)
+				binary.BigEndian.PutUint32(b[3:], t)
+				add("st=", b)
+				b2 := cloneBytes(raw)
+				binary.BigEndian.PutUint32(b2[7:], t)
+				if t != 0 {
+					add("rt=", b2)
+				}
+			}
+			b := cloneBytes(raw)
+			copy(b[3:7], raw[7:11])
+			copy(b[7:11], raw[3:7])
+			add("tags-swapped", b)
+		}
+		for _, v := range []uint16{1, 2, 3, 4, 0} {
+			if int(v) != h.Version {
+				b := cloneBytes(raw)
+				binary.BigEndian.PutUint16(b, v)
+				add("version=", b)
+			}
+		}
+		switch h.Type {
+		case ref.TypeDHKey:
+			for _, v := range degenerate() {
+				add("gy-degenerate", append(cloneBytes(h.HdrBytes), ref.PutMPI(nil, v)...))
+			}
+			add("gy-other", append(cloneBytes(h.HdrBytes), ref.PutMPI(nil, ref.Pub([]byte{byte(rng.Intn(250) + 3), 7, 9}))...))
+		case ref.TypeData:
+			if _, err := ref.ParseData(h.Body); err == nil {
+				for _, f := range []func(*ref.Data){
+					func(d *ref.Data) { binary.BigEndian.PutUint64(d.Ctr[:], binary.BigEndian.Uint64(d.Ctr[:])+1) },
+					func(d *ref.Data) { binary.BigEndian.PutUint64(d.Ctr[:], binary.BigEndian.Uint64(d.Ctr[:])+1000) },
+					func(d *ref.Data) { d.SKID++ },
+					func(d *ref.Data) { d.SKID-- },
+					func(d *ref.Data) { d.RKID++ },
+					func(d *ref.Data) { d.RKID-- },
+					func(d *ref.Data) { d.SKID, d.RKID = 0, 0 },
+					func(d *ref.Data) { d.Flag ^= 1 },
+					func(d *ref.Data) { d.Y = ref.Pub([]byte{3, 1, 4, 1, 5}) },
+					func(d *ref.Data) { d.Enc = append(cloneBytes(d.Enc), 0) },
+					func(d *ref.Data) { d.Enc = d.Enc[:len(d.Enc)-1] },
+					func(d *ref.Data) { d.Enc = nil },
+				} {
+					d2, _ := ref.ParseData(cloneBytes(h.Body))
+					f(d2)
+					add("data-field", append(cloneBytes(h.HdrBytes), d2.Bytes()...))
+				}
+			}
+		}
+	}
+	// armour damage
+	bad := cloneBytes(full)
+	bad[len(bad)/2] = '!'
+	out = append(out, variant{"armour", bad})
+	out = append(out, variant{"no-dot", cloneBytes(full[:len(full)-1])})
+	return out
+}
+
+func degenerate() []*big.Int {
+	p := ref.P
+	return []*big.Int{big.NewInt(0), big.NewInt(1), new(big.Int).Sub(p, big.NewInt(1)), new(big.Int).Set(p), new(big.Int).Add(p, big.NewInt(1))}
+}
+
+func execAttack(w *world.World, s Step) bool {
+	p := w.P[s.P]
+	switch s.A {
+	case "TamperAll":
+		// copies of the message at the head of p's queue, each tampered in one way, are delivered
+		// before the genuine one; their replies go nowhere
+		if len(p.Queue) == 0 {
+			return false
+		}
+		wm := p.Queue[0]
+		full, err := ref.Reassemble(wm.Raw)
+		if err != nil || !bytes.HasPrefix(full, []byte("?OTR:")) {
+			return false
+		}
+		rng := rand.New(rand.NewSource(int64(w.Seed) + int64(wm.ID)*7919 + int64(s.I)))
+		per := s.Z
+		if per == 0 {
+			per = 2
+		}
+		vs := variants(full, rng, s.Q, per)
+		if otr3.VerifProject(p.Conv).TheirTag == 0 {
+			// a valid foreign sender tag would (by design) bind the conversation to that instance
+			kept := vs[:0]
+			for _, v := range vs {
+				if !strings.HasPrefix(v.name, "st") && v.name != "tags-swapped" {
+					kept = append(kept, v)
+				}
+			}
+			vs = kept
+		}
+		if s.T > 0 && len(vs) > s.T {
+			rng.Shuffle(len(vs), func(i, j int) { vs[i], vs[j] = vs[j], vs[i] })
+			vs = vs[:s.T]
+		}
+		for _, v := range vs {
+			w.ReceiveAttack(p, [][]byte{v.raw}, v.name)
+		}
+		return true
+	case "TamperOne":
+		// the message at the head of p's queue is replaced by one tampered form (then delivered normally)
+		if len(p.Queue) == 0 {
+			return false
+		}
+		wm := p.Queue[0]
+		full, err := ref.Reassemble(wm.Raw)
+		if err != nil || !bytes.HasPrefix(full, []byte("?OTR:")) {
+			return false
+		}
+		rng := rand.New(rand.NewSource(int64(w.Seed) + int64(wm.ID)*7919))
+		vs := variants(full, rng, false, 2)
+		if len(vs) == 0 {
+			return false
+		}
+		v := vs[s.I%len(vs)]
+		p.Queue = p.Queue[1:]
+		nw := w.InjectRaw(p, v.raw)
+		// move it to the head
+		p.Queue = append([]*world.WireMsg{nw}, p.Queue[:len(p.Queue)-1]...)
+		w.Deliver(p)
+		return true
+	case "OldMacsTail":
+		// the unauthenticated list of disclosed MAC keys is changed: the message must still be accepted
+		if len(p.Queue) == 0 {
+			return false
+		}
+		wm := p.Queue[0]
+		full, err := ref.Reassemble(wm.Raw)
+		if err != nil {
+			return false
+		}
+		raw, err := ref.Dearmor(full)
+		if err != nil {
+			return false
+		}
+		h, err := ref.ParseHeader(raw)
+		if err != nil || h.Type != ref.TypeData {
+			return false
+		}
+		d, err := ref.ParseData(h.Body)
+		if err != nil {
+			return false
+		}
+		d.OldMACs = append(cloneBytes(d.OldMACs), bytes.Repeat([]byte{0x5a}, 20)...)
+		p.Queue = p.Queue[1:]
+		nw := w.InjectRaw(p, ref.Armor(append(cloneBytes(h.HdrBytes), d.Bytes()...)))
+		p.Queue = append([]*world.WireMsg{nw}, p.Queue[:len(p.Queue)-1]...)
+		w.Deliver(p)
+		return true
+	}
+	return false
+}
